@@ -3,6 +3,7 @@ package c04
 import (
 	"fmt"
 	"sort"
+	"strings"
 	"time"
 
 	"github.com/anishathalye/porcupine"
@@ -12,6 +13,8 @@ const maxKeys = 8
 
 // Obs is what one step of a transaction observed.
 type Obs struct {
+	S    int64      `json:"s"`              // monotonic time right before the step was invoked
+	Void bool       `json:"void,omitempty"` // scan that had not finished when a forced rollback of its transaction was invoked: not an observation
 	At   int64      `json:"at"`             // monotonic time right after the step returned
 	R    int64      `json:"r,omitempty"`    // get: id of the value read, 0 = absent, -1 = bytes nobody wrote
 	Scan [][2]int64 `json:"scan,omitempty"` // scan: (key index or -1 for a key outside the pool, value id) in iteration order
@@ -29,8 +32,15 @@ type TxRec struct {
 	Ret     int64  `json:"ret"`
 	Applied bool   `json:"applied"` // Commit was requested and returned nil
 	EndErr  string `json:"end_err,omitempty"`
-	Obs     []Obs  `json:"obs"`
+	Obs     []Obs  `json:"obs"` // one per step that returned without the closed error; shorter than the script when the transaction was closed under the client
+	// forced rollback by the reaper goroutine (what the registry's stale sweep / connection cleanup do)
+	Forced     bool  `json:"forced,omitempty"`      // the reaper's Rollback returned nil: it closed the transaction, which counts as rolled back
+	ForcedCall int64 `json:"forced_call,omitempty"` // the reaper invoked Rollback
+	ForcedRet  int64 `json:"forced_ret,omitempty"`  // ... and it returned
+	ClosedAt   int   `json:"closed_at,omitempty"`   // 1 + index of the step that failed with ErrTransactionClosed (0 = none)
 }
+
+func isClosedErr(s string) bool { return strings.Contains(s, "already committed or rolled back") }
 
 func (r *TxRec) name() string {
 	switch r.C {
@@ -112,7 +122,7 @@ func replay(st state, in *txIn) (int, state) {
 				return i, st
 			}
 		case "scan":
-			if !sameScan(o.Scan, scanWant(&view, nk, s.A, s.B)) {
+			if !o.Void && !sameScan(o.Scan, scanWant(&view, nk, s.A, s.B)) {
 				return i, st
 			}
 		}
@@ -166,8 +176,20 @@ func checkHistory(c *Case, h []TxRec, timeout time.Duration) CheckResult {
 		if tx.RO {
 			mode = "ro"
 		}
-		if r.EndErr != "" && !tx.hasWrite() {
+		switch {
+		case r.EndErr == "":
+		case isClosedErr(r.EndErr):
+			if !r.Forced {
+				return fail("closed-error-but-nobody-closed-it:end:"+mode, fmt.Sprintf("%s: commit/rollback reported %q although no other party closed the transaction", r.name(), r.EndErr))
+			}
+		case !tx.hasWrite():
 			return fail("end-error:"+mode, fmt.Sprintf("%s: commit/rollback of a transaction without writes failed: %s", r.name(), r.EndErr))
+		}
+		if r.ClosedAt > 0 && !r.Forced {
+			return fail("closed-error-but-nobody-closed-it:step:"+mode, fmt.Sprintf("%s: step %d failed with the closed-transaction error although no other party closed the transaction", r.name(), r.ClosedAt-1))
+		}
+		if r.Forced && r.Applied {
+			return fail("forced-rollback-and-commit-both-succeeded:"+mode, fmt.Sprintf("%s: a Rollback from another goroutine and the client's Commit both returned nil", r.name()))
 		}
 		// per-key knowledge inside this transaction
 		var own [maxKeys]int64  // own overlay: -1 untouched, 0 deleted, >0 id
@@ -197,9 +219,13 @@ func checkHistory(c *Case, h []TxRec, timeout time.Duration) CheckResult {
 					return &Verdict{Sig: "own-write-resurfaced:" + via, Msg: fmt.Sprintf("%s step %d: %s of k%d returned %s, an own write that was overwritten or deleted later in the same transaction",
 						r.name(), step, via, k, vname(val))}
 				}
-				if w == nil || !wtx.Commit {
-					return &Verdict{Sig: "dirty-read:rolled-back:" + mode + ":" + via, Msg: fmt.Sprintf("%s step %d: %s of k%d returned %s, written by a transaction that rolled back",
-						r.name(), step, via, k, vname(val))}
+				if w == nil || !wtx.Commit || (w.Forced && !w.Applied) {
+					how := "rolled back"
+					if w != nil && w.Forced {
+						how = "was rolled back by force"
+					}
+					return &Verdict{Sig: "dirty-read:rolled-back:" + mode + ":" + via, Msg: fmt.Sprintf("%s step %d: %s of k%d returned %s, written by a transaction that %s",
+						r.name(), step, via, k, vname(val), how)}
 				}
 				if !w.Applied {
 					return &Verdict{Sig: "dirty-read:failed-commit:" + mode + ":" + via, Msg: fmt.Sprintf("%s step %d: %s of k%d returned %s, written by %s whose commit reported %q",
@@ -208,6 +234,14 @@ func checkHistory(c *Case, h []TxRec, timeout time.Duration) CheckResult {
 				if at := r.Obs[step].At; at < w.EndCall {
 					return &Verdict{Sig: "dirty-read:uncommitted:" + mode + ":" + via, Msg: fmt.Sprintf("%s step %d: %s of k%d returned %s at t=%d, but %s called Commit only at t=%d",
 						r.name(), step, via, k, vname(val), at, w.name(), w.EndCall)}
+				}
+			}
+			if val > 0 && r.Forced {
+				wc, wt, _ := c.splitID(uint32(val))
+				if w := recOf[[2]int{wc, wt}]; w != nil && w.EndCall > r.ForcedRet {
+					return &Verdict{Sig: "read-after-forced-rollback:" + mode + ":" + via, Msg: fmt.Sprintf(
+						"%s step %d: %s of k%d returned %s successfully, but %s called Commit (t=%d) only after the forced Rollback of %s had returned (t=%d): the read saw a state committed after its transaction was closed",
+						r.name(), step, via, k, vname(val), w.name(), w.EndCall, r.name(), r.ForcedRet)}
 				}
 			}
 			if seen[k] != -2 && seen[k] != val {
@@ -236,6 +270,9 @@ func checkHistory(c *Case, h []TxRec, timeout time.Duration) CheckResult {
 					return res
 				}
 			case "scan":
+				if o.Void {
+					continue
+				}
 				lo, hi := 0, nk
 				if s.A >= 0 {
 					lo = s.A
@@ -332,10 +369,16 @@ func render(c *Case, h []TxRec) string {
 			case "get":
 				s += fmt.Sprintf("r k%d=%s;", st.K, vname(r.Obs[si].R))
 			case "scan":
-				s += fmt.Sprintf("scan[%d,%d)=%v;", st.A, st.B, r.Obs[si].Scan)
+				if r.Obs[si].Void {
+					s += "scan(void);"
+				} else {
+					s += fmt.Sprintf("scan[%d,%d)=%v;", st.A, st.B, r.Obs[si].Scan)
+				}
 			}
 		}
 		switch {
+		case r.Forced:
+			s += fmt.Sprintf("}FORCED-ROLLBACK@%d..%d ", r.ForcedCall/1000, r.ForcedRet/1000)
 		case r.Applied:
 			s += "}commit "
 		case tx.Commit:
